@@ -142,6 +142,16 @@ CLAIMED["C20"] = dict(
     technique="Coq proof (product-rule algebra over Qc) + in-Coq correspondence + exact finite-difference oracle on materialized matrices",
     design="8 C20")
 
+CLAIMED["C16"] = dict(
+    text="Gallina model of the constraint compiler. Theorems: the operator table equals the regenerated one; for EVERY expression tree the compiled "
+         "factor set is duplicate-free and denotes, at every point x, the arithmetic value of the expression ('l = r' as l - r); the row and constant "
+         "satisfy A.x - b = that value for every x; products of two variable-bearing factors, variable-bearing divisors and unknown columns are "
+         "rejected. Model = implementation (exact rows or error class) on generated and mutated specifications; the affine identity is evaluated "
+         "at n+1 independent points and string/list/mapping forms are compared on the implementation.",
+    note="Coq kernel + vm_compute; dyadic literals so that binary64 arithmetic is exact; graphlib evaluation order (which of two errors surfaces) not modelled",
+    technique="Coq proof (denotational soundness of the scaled-factor algebra by induction over expression trees) + generated operator table + in-Coq correspondence",
+    design="8 C16")
+
 NOT_YET = {}
 
 
